@@ -14,6 +14,8 @@ CHECKS = {
          "Bounded: generated resources as in C02 (all 146 types in the thorough tier); `X is BackboneElement` for top-level data types, xhtml and System.Any are left open as the property does not address them. Trusted: TLC, FPTypes text, the descriptor annotations, harness projection.", "DESIGN.md section 6 C12"),
  "C10": ("The interpreter's abstract machine (FPEval: big-step evaluator over the annotated tree, with where/select/exists/all/empty/count/first/last/tail/skip/take/indexer/distinct/isDistinct/exclude/intersect/extension/not/iif/allTrue... and criteria evaluated per item) is model-checked by TLC for the collection algebra at every focus of the pool (first = [0] = take(1), tail = skip(1), last = skip(count-1), take(n) ++ skip(n) = c for all n, exists(p) = where(p).exists(), all(p), distinct/isDistinct, exclude, extension(u) = extension.where(url=u); four mutant twins must fail). TLC emits every case; each is executed by the real Compile/Evaluate and judged by TLC: exact item identity and order for where/select/subsetting/exclude, acceptance predicates (one representative per equality class, no null item) for distinct/intersect.",
          "Bounded: 13 foci on model resources MR1/MR4 and environment collections, 16 criteria, 8 projections, n in [-3, count+3] and int32 boundaries, 9 overlap collections; cases whose criteria outcome the properties leave open are counted as unconstrained in the evidence. Trusted: TLC, FPEval/FPNav/FPCompare text, the harness projection.", "DESIGN.md section 6 C10"),
+ "C03": ("FPSlices models Go slice aliasing (backing arrays, offset/length/capacity, sub-slicing by tail/skip/take, append with spare capacity); TLC explores every behaviour of a caller-owned slice under pipelines of steps and checks CallerArraysFrozen (invariant and action property), with the in-place-append mutant twin required to fail. Every behaviour is replayed with real Go slices (strings, and nodes of the resource) whose spare capacity holds sentinels; in addition every program of the abstract machine's generator (all collection functions, criteria, set functions over collections aliasing resource nodes, failing and succeeding) is run with before/after snapshots of every caller-owned object. TLC judges each record: no mutation flag (bytes, proto.Equal, presence bits, slice header, cells up to capacity, content) and every result element is one of the input's own nodes.",
+         "Bounded: slices of length 0..3 with 0..2 spare cells and pipelines of up to 4 steps; the C10 program space on model resources. Trusted: TLC, FPSlices text, the harness snapshot code (lib/snapshot.go).", "DESIGN.md section 6 C03"),
  "C05": ("TLC checks symmetry, negation, mirror, trichotomy, transitivity, congruence and anchor laws of the reference comparison model (FPCompare) over the whole value pool and emits every ordered pair x six operators (literal forms, plus rotating environment-variable and FHIR-element forms) and the collection variants; every case is executed through Compile/Evaluate and judged by TLC against the model's permitted-answer sets; each operand evaluated alone must denote the pool value.",
          "Bounded: the 82-value pool and 12 base collections named in DESIGN.md C05; trusted: TLC, FPCompare/FPBigNum text, the harness projection, the library's Parse* constructors for environment operands (re-checked per operand).", "DESIGN.md section 6 C05, Appendix F"),
  "C06": ("TLC checks the Kleene laws on the specification's truth tables and explores the complete space of (context, operator, operand form, operand form) cases; every explored transition is replayed in the real code and judged by TLC against the specification's tables. Exhaustive over the finite space the property's quantifier names.",
